@@ -37,6 +37,13 @@ def family():
         class G[X](State):
             v: X
 
+        class TF(State):
+            """A state that is falsy (like a disabled flag or an empty collection-like state)."""
+            v: int = 0
+
+            def __bool__(self):
+                return False
+
         class M0(State):
             v: int = 0
 
@@ -44,9 +51,9 @@ def family():
             items: Sequence[int] = ()
 
         _FAMILY = {
-            "types": (T0, T1, T2, G[int], G[str]),
-            "names": ("T0", "T1", "T2", "G[int]", "G[str]"),
-            "defaultable": (True, False, True, False, False),
+            "types": (T0, T1, T2, G[int], G[str], TF),
+            "names": ("T0", "T1", "T2", "G[int]", "G[str]", "TF(falsy)"),
+            "defaultable": (True, False, True, False, False, True),
             "metrics": (M0, M1),
         }
     return _FAMILY
@@ -86,6 +93,7 @@ def capture() -> Capture:
         root.addHandler(_capture)
         root.setLevel(logging.DEBUG)
     _capture.records = []
+    logging.getLogger().setLevel(logging.DEBUG)  # a previous run may have reconfigured the level
     return _capture
 
 
@@ -169,6 +177,11 @@ class DispDouble:
         self.exit_exc = None
         self.enter_exc = None
         self.states = [make_state(ti, v) for ti, v in spec["states"]]
+        self.raised_seq = None
+
+    def __bool__(self):
+        # a disposable may be a falsy object (e.g. an empty sized resource): it still has to be entered and exited
+        return not self.spec.get("falsy")
 
     async def __aenter__(self):
         sim = self.eng.sim
@@ -180,6 +193,7 @@ class DispDouble:
             await sim.pause(f"de{self.uid}")
         if self.spec["enter_raise"]:
             self.enter_exc = (InjectedBase if self.spec["enter_raise"] == 2 else Injected)(("enter", self.uid))
+            self.raised_seq = sim.seq
             sim.stats["fault:disposable_enter_raise"] += 1
             raise self.enter_exc
         self.enter_done = True
@@ -197,12 +211,31 @@ class DispDouble:
         if self.spec["exit_pause"]:
             await sim.pause(f"dx{self.uid}")
         if self.spec["exit_raise"]:
-            self.exit_exc = Injected(("exit", self.uid))
+            self.exit_exc = (InjectedBase if self.spec["exit_raise"] == 2 else Injected)(("exit", self.uid))
+            self.raised_seq = sim.seq
             sim.stats["fault:disposable_exit_raise"] += 1
             raise self.exit_exc
         sim.event("d-exited", self.uid)
         # a disposable may answer True like a suppressing context manager: the scope must not let that swallow anything
         return True if self.spec.get("exit_true") else None
+
+
+class DispObj:
+    """The object handed to haiway.  It delegates to its *current use* (a DispDouble), so that one Disposables instance
+    can be given to a second scope later: calls the library makes on a stale reference are counted against the
+    current use (entered/exited twice, exited before the body ended, ...)."""
+
+    def __init__(self, use):
+        self.use = use
+
+    def __bool__(self):
+        return bool(self.use)
+
+    async def __aenter__(self):
+        return await self.use.__aenter__()
+
+    async def __aexit__(self, et, ev, tb):
+        return await self.use.__aexit__(et, ev, tb)
 
 
 def only_injected(exc) -> bool:
@@ -241,7 +274,7 @@ BASE_CFG = dict(
     probe_each=False, pause_between=False, restore=False, owner_probe=False, top_scope=False,
     cancel_mode=None, max_actors=4, lookup=False, join=False, cancel_rules=False, disp_rules=False,
     completion_rules=False, metrics_rules=False, log_rules=False, late_children=0, raise_base=1,
-    try_swallow=1, swallow_cancel=0, tick=0,
+    try_swallow=1, swallow_cancel=0, tick=0, prebuilt=0, reuse_disp=0,
 )
 
 
@@ -250,10 +283,10 @@ def cfg_for(pid: str, profile: str) -> dict:
     w = c["w"]
     if pid == "C01":
         w.update(probe=5, scope=4, updated=3, pause=1)
-        c.update(disposables=2, lookup=True, max_blocks=14, max_depth=5)
+        c.update(disposables=2, lookup=True, max_blocks=14, max_depth=5, prebuilt=1)
     elif pid == "C02":
         w.update(probe=1, scope=5, updated=2, pause=2, raise_=2, try_=2, spawn=1)
-        c.update(disposables=1, restore=True, owner_probe=True, spawn_fail=1, spawn_gate=(2, 1, 1))
+        c.update(disposables=1, restore=True, owner_probe=True, spawn_fail=1, spawn_gate=(2, 1, 1), prebuilt=1)
         if profile in ("disp", "disp-sweep"):
             c.update(disposables=3, disp_faults=2)
         if profile in ("sweep", "disp-sweep", "cancel"):
@@ -261,10 +294,10 @@ def cfg_for(pid: str, profile: str) -> dict:
     elif pid == "C03":
         w.update(scope=4, updated=3, spawn=3, pause=1)
         c.update(probe_each=True, pause_between=True, lookup=True, spawn_via_loop=1, top_scope=True, max_blocks=12,
-                 disposables=2, disp_pause=2)
+                 disposables=2, disp_pause=2, prebuilt=1)
     elif pid == "C06":
         w.update(scope=3, updated=1, spawn=5, pause=2, raise_=1, try_=1)
-        c.update(join=True, spawn_fail=1, spawn_gate=(2, 2, 2), top_scope="mostly", p_async=4, disposables=1, disp_pause=2)
+        c.update(join=True, spawn_fail=1, spawn_gate=(2, 2, 2), top_scope="mostly", p_async=4, disposables=1, disp_pause=2, prebuilt=1)
         if profile in ("sweep", "cancel"):
             c.update(cancel_mode="sweep" if profile == "sweep" else "random")
     elif pid == "C07":
@@ -277,6 +310,7 @@ def cfg_for(pid: str, profile: str) -> dict:
     elif pid == "C08":
         w.update(scope=5, pause=2, raise_=2, try_=2, probe=1)
         c.update(disposables=4, disp_faults=2 if profile != "plain" else 0, disp_pause=2, disp_rules=True, p_async=9,
+                 reuse_disp=1, prebuilt=1,
                  lookup=True, cancel_mode="sweep" if profile == "sweep" else None)
     elif pid == "C09":
         w.update(scope=6, spawn=3, pause=3, updated=1)
@@ -306,6 +340,8 @@ class Gen:
         self.cfg = cfg
         self.blocks = 0
         self.val = 0
+        self.used = {}
+        self.last_disp_n = 0
         self.actors = 1
         keys = [k for k, v in cfg["w"].items() if v]
         self.keys = keys
@@ -315,13 +351,23 @@ class Gen:
         self.val += 1
         return self.val
 
+    def value_for(self, ti):
+        """Mostly a fresh value; sometimes the value of an earlier instance of the same type, so that a distinct
+        instance compares equal to one that may be visible in an enclosing block."""
+        used = self.used.setdefault(ti, [])
+        if used and self.s.chance(1, 6, "equal-value"):
+            return used[self.s.draw(len(used), "which-equal")]
+        v = self.fresh()
+        used.append(v)
+        return v
+
     def states(self, allow_many=True):
         s = self.s
         out = []
         n = s.weighted((2, 4, 2, 1), "nstates")
         for _ in range(n):
-            ti = s.draw(5, "type")
-            out.append((ti, self.fresh()))
+            ti = s.draw(6, "type")
+            out.append((ti, self.value_for(ti)))
             if allow_many and s.chance(1, 8, "dup-type"):
                 out.append((ti, self.fresh()))
         return out
@@ -332,15 +378,16 @@ class Gen:
         out = []
         for _ in range(n):
             ns = s.weighted((2, 3, 1), "dstates")
-            d = {"states": [(s.draw(5, "type"), self.fresh()) for _ in range(ns)],
+            d = {"states": [(s.draw(6, "type"), self.fresh()) for _ in range(ns)],
                  "single": bool(s.draw(2, "single")),
                  "enter_pause": int(s.chance(c["disp_pause"], 4, "epause")),
                  "exit_pause": int(s.chance(c["disp_pause"], 4, "xpause")),
                  "enter_raise": 0, "exit_raise": 0}
             if c["disp_faults"]:
                 d["enter_raise"] = int(s.chance(1, 6, "eraise")) * (1 + s.weighted((3, 1), "eraise-kind"))
-                d["exit_raise"] = int(s.chance(c["disp_faults"], 6, "xraise"))
+                d["exit_raise"] = int(s.chance(c["disp_faults"], 6, "xraise")) * (1 + s.weighted((3, 1), "xraise-kind"))
                 d["exit_true"] = int(s.chance(1, 6, "xtrue"))
+                d["falsy"] = int(s.chance(1, 8, "falsy"))
             out.append(d)
         return out
 
@@ -355,9 +402,17 @@ class Gen:
                 "completion": 0}
         if is_async and c["disposables"]:
             d = self.disp()
+            if c["reuse_disp"] and self.last_disp_n and s.chance(1, 4, "reuse-disposables"):
+                while len(d) < self.last_disp_n:  # (bounded: never loops on an exhausted choice list)
+                    d.append({"states": [], "single": False, "enter_pause": 0, "exit_pause": 0, "enter_raise": 0,
+                              "exit_raise": 0})
+                d = d[:self.last_disp_n]
+                spec["reuse"] = 1
             if d or s.chance(1, 4, "empty-disp"):
                 spec["disp"] = d
-                spec["given"] = s.draw(2, "given-as")
+                spec["given"] = 0 if spec.get("reuse") else s.draw(2, "given-as")
+                if d and spec["given"] == 0:
+                    self.last_disp_n = len(d)
         if c["logger"] and s.chance(1, 3, "own-logger"):
             spec["logger"] = s.draw(3, "logger")
         if c["trace"] and s.chance(1, 3, "own-trace"):
@@ -367,6 +422,8 @@ class Gen:
                 spec["completion"] = 1 + s.draw(2, "completion")
             else:
                 spec["completion"] = s.draw(3, "completion")
+        if c["prebuilt"] and s.chance(1, 6, "prebuilt"):
+            spec["prebuilt"] = 1  # the scope object is created before the enclosing block is entered
         body = self.block(depth + 1, in_sync or not is_async)
         return ["scope", spec, body]
 
@@ -401,7 +458,9 @@ class Gen:
             elif k == "record":
                 ops.append(["record", s.draw(2, "mtype"), self.fresh(), s.weighted((3, 3, 3, 1), "merge")])
             elif k == "log":
-                ops.append(["log", s.draw(4, "level"), s.draw(6, "fmt"), s.draw(3, "exc")])
+                if s.chance(1, 8, "set-level"):
+                    ops.append(["loglevel", s.draw(2, "new-level")])
+                ops.append(["log", s.draw(4, "level"), s.draw(6, "fmt"), s.draw(4, "exc")])
             elif k == "pause":
                 ops.append(["pause"])
             elif k == "raise_":
@@ -457,7 +516,10 @@ class Engine:
         self.uncaught_exit_errors = []
         self.cancel_info = None
         self.loggers = [logging.getLogger(f"hv-L{i}") for i in range(3)]
+        self.prebuilt = {}
+        self.last_disposables = {}
         self._idents = {}
+        self.root_level = logging.DEBUG
 
     # -- helpers ------------------------------------------------------------------------------
     def ident(self, obj):
@@ -667,6 +729,11 @@ class Engine:
                 self.op_record(actor, op)
             elif kind == "log":
                 self.op_log(actor, op)
+            elif kind == "loglevel":
+                # the application reconfigures logging while scopes are open
+                self.root_level = (logging.DEBUG, logging.WARNING)[op[1]]
+                logging.getLogger().setLevel(self.root_level)
+                sim.event("loglevel", op[1])
             elif kind == "raise":
                 sim.stats["fault:body_raise"] += 1
                 sim.nontrivial = True
@@ -751,13 +818,13 @@ class Engine:
 
         return {"sum": metrics.metrics(merge=m_sum), "first": metrics.metrics(merge=m_first)}
 
-    async def op_scope(self, actor, op):
+    def prepare_scope(self, actor, op):
+        """Everything up to and including the ``ctx.scope(...)`` call (the library registers the scope's metrics under
+        the scope that is current *now*); entering may happen later and elsewhere (a prepared scope object)."""
         from haiway import Disposables, ctx
 
         sim = self.sim
-        cfg = self.cfg
         _k, spec, body = op
-        before = self.observe(actor) if cfg["restore"] else None
         parent = self.innermost_scope(actor.stack)
         f = self.new_scope_frame(actor, spec)
         f.registered_seq = sim.event("scope-create", f.uid, actor.aid)
@@ -765,8 +832,6 @@ class Engine:
         f.parent_completed_at_registration = pstate  # 'yes' | 'no' | 'maybe'
         if pstate == "yes":
             sim.stats["scope_created_under_completed_parent"] += 1
-        if len(actor.stack) >= 1:
-            sim.nontrivial = True
         if parent is not None:
             parent.children.append(f)
         disposables = None
@@ -775,7 +840,19 @@ class Engine:
             doubles = [DispDouble(self, d, self.next_uid(), f.uid) for d in spec["disp"]]
             f.disposables = doubles
             self.disps.extend(doubles)
-            disposables = Disposables(*doubles) if spec["given"] == 0 else list(doubles)
+            last = self.last_disposables.get(actor.aid)
+            if (spec.get("reuse") and spec["given"] == 0 and last is not None and last[2].exit_returned
+                    and len(last[1]) == len(doubles)):
+                # the same Disposables instance is given to a second scope (after the first one was left)
+                disposables, objects = last[0], last[1]
+                for obj, use in zip(objects, doubles):
+                    obj.use = use
+                sim.stats["disposables_instance_reused"] += 1
+            else:
+                objects = [DispObj(d) for d in doubles]
+                disposables = Disposables(*objects) if spec["given"] == 0 else list(objects)
+            if spec["given"] == 0:
+                self.last_disposables[actor.aid] = (disposables, objects, f)
         kwargs = {}
         if disposables is not None:
             kwargs["disposables"] = disposables
@@ -787,9 +864,27 @@ class Engine:
         if cb is not None:
             kwargs["completion"] = cb
         states = [x for lst in f.states.values() for x in lst]
-        # keep the generated order (several instances of one type: any of them is acceptable)
-        states = [make for make in states]
         cm = ctx.scope(f.name, *states, **kwargs)
+        return f, cm, doubles
+
+    def prebuild_children(self, actor, body):
+        """Scope objects flagged 'prebuilt' are created before their parent block is entered."""
+        for child in body:
+            if child[0] == "scope" and child[1].get("prebuilt"):
+                self.prebuilt[id(child)] = self.prepare_scope(actor, child)
+                self.sim.stats["scope_object_prepared_outside_its_parent"] += 1
+
+    async def op_scope(self, actor, op):
+        sim = self.sim
+        cfg = self.cfg
+        _k, spec, body = op
+        before = self.observe(actor) if cfg["restore"] else None
+        if len(actor.stack) >= 1:
+            sim.nontrivial = True
+        prepared = self.prebuilt.pop(id(op), None)
+        f, cm, doubles = prepared if prepared is not None else self.prepare_scope(actor, op)
+        if cfg["prebuilt"]:
+            self.prebuild_children(actor, body)
         pushed = False
         left = None
         try:
@@ -968,6 +1063,8 @@ class Engine:
         cfg = self.cfg
         _k, sts, body = op
         before = self.observe(actor) if cfg["restore"] else None
+        if cfg["prebuilt"]:
+            self.prebuild_children(actor, body)
         f = Frame("updated", self.next_uid())
         self.all_frames.append(f)
         for ti, v in sts:
@@ -1149,6 +1246,8 @@ class Engine:
         exc = None
         if exc_kind == 1 and level != 2:
             exc = Injected(("logged", self.logn))
+        elif exc_kind == 3 and level == 0:
+            exc = InjectedBase(("logged", self.logn))  # log_error accepts any BaseException
         n0 = len(self.cap.records)
         try:
             if level == 0:
@@ -1169,6 +1268,10 @@ class Engine:
             sim.fail("log-raised", f"ctx.log_* raised {e!r}")
         sim.event("log", actor.aid, scope.uid if scope else 0, level, fmt)
         got = [r for r in self.cap.records[n0:] if marker in r[2]]
+        if lvl < self.root_level:
+            if got:
+                sim.fail("log-level", f"a level {lvl} message was emitted although the logger level is {self.root_level}")
+            return
         self.judge_log(actor, scope, got, lvl, user, marker, bool(args))
         if exc is not None and got:
             ei = got[0][4]
@@ -1402,6 +1505,8 @@ class Engine:
                 aborting = True
             if inner_async.body_ended and inner_async.body_exc is not None:
                 aborting = True
+            if any(d.exit_exc is not None for d in inner_async.disposables):
+                aborting = True  # disposing already failed: the group is told about that error and aborts
         self.cancel_info = {"victim": victim, "where": where, "aborting": aborting, "scope": inner_async,
                             "open_scopes": open_scopes,
                             "pending_children": [c for f in open_scopes for c in f.tasks if c.task is not None and not c.task.done()]}
@@ -1479,6 +1584,16 @@ class Engine:
             return "library"
         return "harness"
 
+    def double_raised_after(self, actor, seq):
+        """Did a disposable double of one of the actor's scopes raise after event `seq` (a user cleanup error that may
+        legitimately replace a propagating cancellation)?"""
+        for f in self.frames:
+            if f.actor is actor:
+                for d in f.disposables:
+                    if d.raised_seq is not None and d.raised_seq > seq:
+                        return True
+        return False
+
     def finish_cancel(self):
         sim = self.sim
         info = self.cancel_info
@@ -1488,7 +1603,7 @@ class Engine:
                     and not (info is not None and info["victim"] is a):
                 if any(f.child_failed for f in self.frames if f.actor is a):
                     continue  # TaskGroup was aborting at some point: CPython may have dropped the request (ground rule 5)
-                if only_injected(a.end_exc):
+                if only_injected(a.end_exc) and self.double_raised_after(a, 0):
                     sim.stats["exempt:cancellation_replaced_by_user_cleanup_error"] += 1
                     continue  # user-supplied code (a double) raised while the cancellation was propagating
                 sim.fail_post("cancel-swallowed", f"actor {a.aid} asked for its own cancellation (ctx.cancel, {a.caught_cancels} earlier "
@@ -1505,7 +1620,8 @@ class Engine:
         if info["aborting"]:
             sim.stats["exempt:cancel_while_group_aborting"] += 1
             victim.exempt_cancel = True
-        elif not victim.task.cancelled() and victim.pending_cancel and only_injected(victim.end_exc):
+        elif not victim.task.cancelled() and victim.pending_cancel and only_injected(victim.end_exc) \
+                and self.double_raised_after(victim, victim.cancel_landed):
             sim.stats["exempt:cancellation_replaced_by_user_cleanup_error"] += 1
         elif not victim.task.cancelled() and victim.pending_cancel:
             sim.fail_post("cancel-swallowed", f"actor {victim.aid} was cancelled ({info['where']}) and never caught it, but its task "
